@@ -247,7 +247,7 @@ func (c *C09Case) Run() string {
 		dst.Shape = want.Shape
 		if c.DstT && len(want.Shape) >= 2 && prod(want.Shape) > 1 {
 			// a destination that already has the right logical shape, through a pending lazy transposition
-			dst.L = Layout{Root: "rm", Steps: []LStep{{Op: "T", Perm: revPerm(len(want.Shape))}}}
+			dst.L = Layout{Root: dst.L.Root, Steps: []LStep{{Op: "T", Perm: revPerm(len(want.Shape))}}}
 			rec.Class("destination:lazyT")
 		}
 		if len(dst.Codes) < prod(want.Shape) {
